@@ -25,6 +25,42 @@ impl Read for Liar {
 	}
 }
 
+/// A reader that panics at its `at`-th call (a bug in the caller's reader): the unwinding must still release everything.
+struct PanicReader {
+	inner: SchedReader,
+	at: usize,
+	calls: usize,
+}
+
+impl Read for PanicReader {
+	fn read(&mut self, buf: &mut [u8]) -> io::Result<usize> {
+		if self.calls == self.at {
+			panic!("reader panics at call {}", self.at);
+		}
+		self.calls += 1;
+		self.inner.read(buf)
+	}
+}
+
+/// A writer that panics once it has been given `after` bytes.
+struct PanicWriter {
+	after: usize,
+	seen: usize,
+}
+
+impl Write for PanicWriter {
+	fn write(&mut self, buf: &[u8]) -> io::Result<usize> {
+		self.seen += buf.len();
+		if self.seen > self.after {
+			panic!("writer panics");
+		}
+		Ok(buf.len())
+	}
+	fn flush(&mut self) -> io::Result<()> {
+		Ok(())
+	}
+}
+
 fn trace_field() -> String {
 	let t = xt::verif::trace::take();
 	let parts: Vec<String> = t
@@ -114,7 +150,35 @@ pub fn generate_and_run(seed: u64, tier: &str, cases_w: &mut dyn Write, impl_w: 
 		}
 		inputs.push(d);
 	}
+	// which families to run: "all" (default), "none" (no panicking readers/writers), "only" (just those); the memcheck
+	// runs of the thorough tier separate them because a panic that unwinds through libyaml is a listed known finding
+	let panic_cases = std::env::var("XT_VERIF_PANIC_CASES").unwrap_or_else(|_| "all".to_string());
 	for data in &inputs {
+		if panic_cases == "only" {
+			for at in [0usize, 1, 2, 5] {
+				let mk = || PanicReader { inner: SchedReader::new(data, Sched::Fixed(11), None), at, calls: 0 };
+				let r = catch_unwind(AssertUnwindSafe(|| xt::verif::yaml_chunks(mk()).len()));
+				record("panicking reader", if r.is_ok() { "returned" } else { "clean panic" }, &mut st, cases_w, impl_w);
+			}
+			continue;
+		}
+		// inputs far larger than libyaml's buffer: whole-buffer reads and large pieces only (the byte-by-byte drivers below
+		// would take minutes on them and add nothing)
+		if data.len() > 20000 {
+			for sched in [Sched::Full, Sched::Fixed(4099), Sched::Fixed(16384), Sched::Random { seed: rng.next(), max: 9000 }] {
+				let r = catch_unwind(AssertUnwindSafe(|| xt::verif::yaml_chunks(SchedReader::new(data, sched.clone(), None)).len()));
+				record("chunks (large input)", if r.is_ok() { "returned" } else { "panic" }, &mut st, cases_w, impl_w);
+				let r = catch_unwind(AssertUnwindSafe(|| {
+					xt::translate_reader(SchedReader::new(data, sched.clone(), None), None, xt::Format::Json, io::sink()).is_ok()
+				}));
+				record("detect+translate (large input)", if r.is_ok() { "returned" } else { "panic" }, &mut st, cases_w, impl_w);
+			}
+			for k in [data.len() / 3, data.len() - 1] {
+				let r = catch_unwind(AssertUnwindSafe(|| xt::verif::yaml_chunks(SchedReader::new(data, Sched::Fixed(8192), Some(k))).len()));
+				record("reader error (large input)", if r.is_ok() { "returned" } else { "panic" }, &mut st, cases_w, impl_w);
+			}
+			continue;
+		}
 		// well-behaved readers with short reads: all chunks, first chunk only (detection), full translation
 		for sched in [Sched::Full, Sched::Fixed(1), Sched::Fixed(7), Sched::Random { seed: rng.next(), max: 50 }] {
 			let r = catch_unwind(AssertUnwindSafe(|| xt::verif::yaml_chunks(SchedReader::new(data, sched.clone(), None)).len()));
@@ -145,6 +209,20 @@ pub fn generate_and_run(seed: u64, tier: &str, cases_w: &mut dyn Write, impl_w: 
 				let r = catch_unwind(AssertUnwindSafe(|| xt::translate_reader(mk(), None, xt::Format::Json, io::sink()).is_ok()));
 				record("over-reporting reader (detect+translate)", if r.is_ok() { "returned" } else { "clean panic" }, &mut st, cases_w, impl_w);
 			}
+		}
+		// a panic unwinding through the binding (the reader's or the writer's fault): nothing may stay alive
+		for at in if panic_cases == "none" { vec![] } else { vec![0usize, 1, 2, 5] } {
+			let mk = || PanicReader { inner: SchedReader::new(data, Sched::Fixed(11), None), at, calls: 0 };
+			let r = catch_unwind(AssertUnwindSafe(|| xt::verif::yaml_chunks(mk()).len()));
+			record("panicking reader", if r.is_ok() { "returned" } else { "clean panic" }, &mut st, cases_w, impl_w);
+			let r = catch_unwind(AssertUnwindSafe(|| xt::translate_reader(mk(), None, xt::Format::Json, io::sink()).is_ok()));
+			record("panicking reader (detect+translate)", if r.is_ok() { "returned" } else { "clean panic" }, &mut st, cases_w, impl_w);
+		}
+		for after in if panic_cases == "none" { vec![] } else { vec![0usize, 3, 40] } {
+			let r = catch_unwind(AssertUnwindSafe(|| {
+				xt::translate_reader(SchedReader::new(data, Sched::Fixed(7), None), Some(xt::Format::Yaml), xt::Format::Json, PanicWriter { after, seen: 0 }).is_ok()
+			}));
+			record("panicking writer", if r.is_ok() { "returned" } else { "clean panic" }, &mut st, cases_w, impl_w);
 		}
 		// a reader that over-reports by more than libyaml's whole buffer
 		let mk = || Liar { inner: SchedReader::new(data, Sched::Full, None), excess: 1 << 20, from_call: 0, calls: 0 };
